@@ -67,6 +67,29 @@ Proof.
     repeat constructor; cbn [In]; intuition discriminate.
 Qed.
 
+Lemma pair_ok (ks : string) (s : bytes) :
+  In ks ["cert"; "ocsp"; "sct"]%string -> wfb s -> lenN s < two64v ->
+  DetSound.PairOK (enc_bytes_of Model.Cbor.TText (s2b ks), enc_bytes s).
+Proof.
+  intros Hin W L. split; cbn [fst snd].
+  - cbn [In] in Hin.
+    destruct Hin as [<-|[<-|[<-|[]]]].
+    + apply (key_det "cert"); [vm_compute; reflexivity|reflexivity|reflexivity].
+    + apply (key_det "ocsp"); [vm_compute; reflexivity|reflexivity|reflexivity].
+    + apply (key_det "sct"); [vm_compute; reflexivity|reflexivity|reflexivity].
+  - apply DetEnc.enc_bytes_det; assumption.
+Qed.
+
+Definition is_field (e : bytes * bytes) : Prop :=
+  exists ks s, In ks ["cert"; "ocsp"; "sct"]%string /               e = (enc_bytes_of Model.Cbor.TText (s2b ks), enc_bytes s).
+
+Lemma opt_entry_fields (k : string) (o : option bytes) :
+  In k ["cert"; "ocsp"; "sct"]%string -> Forall is_field (opt_entry k o).
+Proof.
+  intros Hk. destruct o as [b|]; cbn [opt_entry]; [|constructor].
+  constructor; [|constructor]. exists k, b. auto.
+Qed.
+
 Lemma encode_augcert_det (a : augcert) (out : bytes) :
   encode_augcert a = Ok out -> wfb out -> lenN out < two64v -> DetItem out.
 Proof.
@@ -74,23 +97,14 @@ Proof.
   destruct (enc_map_inv _ _ E) as [IW IL]. specialize (IW W).
   eapply DetEnc.enc_map_det; [| |exact E].
   2:{ destruct (ac_ocsp a), (ac_sct a); cbn [opt_entry app lenN]; lia. }
-  rewrite Forall_forall in IW, IL. apply Forall_forall. intros [k v] Hkv.
-  specialize (IW _ Hkv). specialize (IL _ Hkv). cbn [fst snd] in IW, IL. destruct IW as [Wk Wv].
-  assert (Hv : forall s, v = enc_bytes s -> DetItem v).
-  { intros s ->. apply DetEnc.enc_bytes_det; [apply wfb_enc_bytes; exact Wv|].
-    pose proof (lenN_enc_bytes s). lia. }
-  assert (Hk : forall ks, k = enc_bytes_of Model.Cbor.TText (s2b ks) ->
-                          In ks ["cert"; "ocsp"; "sct"]%string -> DetItem k).
-  { intros ks -> Hin. cbn [In] in Hin.
-    destruct Hin as [<-|[<-|[<-|[]]]]; (eapply key_det; [vm_compute; reflexivity|reflexivity|reflexivity]). }
-  unfold DetSound.PairOK. cbn [fst snd].
-  cbn [In app] in Hkv. destruct Hkv as [Hkv|Hkv].
-  { inversion Hkv; subst. split; [eapply Hk; [reflexivity|cbn; auto]|eapply Hv; reflexivity]. }
-  apply in_app_or in Hkv. destruct Hkv as [Hkv|Hkv].
-  - destruct (ac_ocsp a); cbn [opt_entry In] in Hkv; [|contradiction].
-    destruct Hkv as [Hkv|[]]. inversion Hkv; subst.
-    split; [eapply Hk; [reflexivity|cbn; auto]|eapply Hv; reflexivity].
-  - destruct (ac_sct a); cbn [opt_entry In] in Hkv; [|contradiction].
-    destruct Hkv as [Hkv|[]]. inversion Hkv; subst.
-    split; [eapply Hk; [reflexivity|cbn; auto]|eapply Hv; reflexivity].
+  assert (Fs : Forall is_field ([(enc_bytes_of Model.Cbor.TText (s2b "cert"), enc_bytes (ac_cert a))]
+                                ++ opt_entry "ocsp" (ac_ocsp a) ++ opt_entry "sct" (ac_sct a))).
+  { apply Forall_app. split.
+    - constructor; [|constructor]. exists "cert"%string, (ac_cert a). split; [cbn; auto|reflexivity].
+    - apply Forall_app. split; apply opt_entry_fields; cbn; auto. }
+  rewrite Forall_forall in IW, IL, Fs. apply Forall_forall. intros e He.
+  specialize (IW _ He). specialize (IL _ He). destruct (Fs _ He) as [ks [s [Hks Ee]]].
+  rewrite Ee in *. cbn [fst snd] in IW, IL. destruct IW as [_ Wv].
+  apply pair_ok; [exact Hks|apply wfb_enc_bytes; exact Wv|].
+  pose proof (lenN_enc_bytes s). lia.
 Qed.
